@@ -343,6 +343,15 @@ func ruleBulkOps(cx *Ctx) {
 				for _, e := range allEvents(o, "BulkRefreshKeys") {
 					at.check(name+": automatic refresh is non-manual", e.Args[len(e.Args)-1] == "false", "BulkGet's refresh returns no channel", e.String(), o)
 				}
+				// an error joined into BulkGet's result is a record's real error: "not found" is reported by leaving the
+				// key out of the result, never as an error
+				for _, e := range o.S.trace {
+					if e.Kind == "LitStore" && strings.Contains(e.Args[0], "varargs") && strings.HasPrefix(e.Args[1], "load(") && strings.HasSuffix(e.Args[1], ".err)") {
+						rec := e.Args[1][5 : len(e.Args[1])-5]
+						nfv, known := predOf(o, "load("+rec+".isNotFound)")
+						ar.check(name+": joined error is not a not-found", known && !nfv, "a record's error is added to the returned error only when the record is not marked not-found (a key that was not found is just absent from the result)", fmt.Sprintf("record %s: not-found known=%v value=%v", rec, known, nfv), o)
+					}
+				}
 				// every way out of the call (result, load error, re-raised loader panic) has handed the stale hits over
 				stale := 0
 				for _, e := range o.S.trace {
